@@ -16,12 +16,12 @@ def main():
 
     violations = []
     n = 0
-    for name, fn in (("falsy_default", lambda: h_args.falsy_default({}, {})), ("static_vs_runtime", lambda: h_args.static_vs_runtime({}, {})), ("call_site_histories", lambda: h_args.call_site_histories({}, {})), ("unreadable_signature", lambda: h_args.unreadable_signature({}, {}))):
+    for name, fn in (("falsy_default", lambda: h_args.falsy_default({}, {})), ("static_vs_runtime", lambda: h_args.static_vs_runtime({}, {})), ("call_site_histories", lambda: h_args.call_site_histories({}, {})), ("unreadable_signature", lambda: h_args.unreadable_signature({}, {})), ("binding_signatures_end_to_end", lambda: h_args.binding_signatures_end_to_end({}, {}))):
         r = fn()
         n += 1
         if r.get("reproduced"):
             violations.append({"what": "%s: %s" % (name, r["detail"]), "inputs": r.get("inputs")})
-    print(json.dumps({"scope": "27 bindings of f(a, b=2, c=3) x all spellings x {run time, literals in source}; 7 falsy defaults; 32 literal argument expressions; 7 keep call sites of f(a, b=0, c=\"z\") analysed in every order of 3 in one process vs fresh processes; 2 classes whose signature cannot be read (derived from dict / ValueError), also end to end", "evaluations": 27 * 2 + 7 + 32 * 2 + 630,
+    print(json.dumps({"scope": "27 bindings of f(a, b=2, c=3) x all spellings x {run time, literals in source}; 7 falsy defaults; 32 literal argument expressions; 7 keep call sites of f(a, b=0, c=\"z\") analysed in every order of 3 in one process vs fresh processes; 2 classes whose signature cannot be read (derived from dict / ValueError), also end to end; 54 bindings of f(a, b, c=0, d=0) with repeated values kept end to end (run-time values and literals): one signature per binding", "evaluations": 27 * 2 + 7 + 32 * 2 + 630,
                       "distinct_nontrivial": 27 * 2 + 7 + 32 * 2, "rule": "one case per (binding, mode) / default / (expression, position)", "samples": [{"call": "f(1, c=7)"}, {"expression": "~1"}],
                       "violations": violations, "known_hits": []}))
 
